@@ -353,7 +353,7 @@ pub fn declared_extent(kind: &str, b: &[u8]) -> Option<usize> {
 }
 
 /// extent of ECParameters: curve type 3 = named group (3 bytes), type 1 = explicit prime (six
-/// u8-length-prefixed fields); any other curve type is rejected on its first byte
+/// u8-length-prefixed fields); unknown for any other curve type
 fn ec_extent(b: &[u8]) -> Option<usize> {
     match *b.first()? {
         3 => Some(3),
@@ -364,6 +364,8 @@ fn ec_extent(b: &[u8]) -> Option<usize> {
             }
             Some(o)
         }
-        _ => Some(1),
+        // other curve types (e.g. explicit_char2) are rejected today; should one become supported its
+        // extent is not ours to define
+        _ => None,
     }
 }
